@@ -12,7 +12,7 @@
 (* Fixed placement: both result lines must equal the tallies of r identical *)
 (* rounds.  Random placement: w1+w2+ties = rounds and ties1 = ties2.        *)
 (***************************************************************************)
-EXTENDS MARS, Asm, Json, IOUtils
+EXTENDS MARS, Formats, Json, IOUtils
 Trace == ndJsonDeserialize(IOEnv.VERIF_TRACE)
 
 Presets == [nop94   |-> [d |-> 94, M |-> 8000, L |-> 100, P |-> 8000, C |-> 80000],
@@ -54,13 +54,27 @@ CheckCli(e) ==
              IN IF n = 1 THEN e.out[1] = <<IF a1 THEN r ELSE 0, 0>>
                 ELSE /\ e.out[1] = <<IF a1 /\ ~a2 THEN r ELSE 0, IF a1 /\ a2 THEN r ELSE 0>>
                      /\ e.out[2] = <<IF a2 /\ ~a1 THEN r ELSE 0, IF a1 /\ a2 THEN r ELSE 0>>
+\* gmars -A: no battle; one listing per warrior, which must read back (pMARS listing conventions, Formats!ReadListing) as
+\* what the warrior file denotes under the configuration the options describe
+CheckCliA(e) ==
+  LET cfg == Config(e.flags)
+      n   == Len(e.progs)
+      ms  == [k \in 1..n |-> Meaning(e.progs[k])]
+      okp == \A k \in 1..n : ~ms[k].err /\ Len(ms[k].code) > 0 /\ e.progs[k].M = cfg.M /\ e.progs[k].L = cfg.L /\ e.progs[k].P = cfg.P
+                                /\ e.progs[k].D = cfg.D /\ e.progs[k].dialect = cfg.d
+  IN okp =>
+     /\ e.exit = 0 /\ e.timeout = 0
+     /\ Len(e.lists) = n
+     /\ \A k \in 1..n : LET r == ReadListing(e.lists[k], cfg.d = 88, cfg.M) IN
+                          r.ok /\ r.code = ms[k].code /\ r.start = ms[k].start
+Check(e) == IF e.ev = "cliA" THEN CheckCliA(e) ELSE CheckCli(e)
 NoMeaning(e) == \E k \in 1..Len(e.progs) : Meaning(e.progs[k]).err
 
 VARIABLE l
 Init == l = 1
 Next == /\ l <= Len(Trace)
         /\ l' = l + 1
-        /\ IF CheckCli(Trace[l]) THEN NoMeaning(Trace[l]) => PrintT(<<"NOMEANING", l>>)
+        /\ IF Check(Trace[l]) THEN NoMeaning(Trace[l]) => PrintT(<<"NOMEANING", l>>)
            ELSE PrintT(<<"REJECT", l>>)
 Accepted == TLCGet("stats").diameter - 1 = Len(Trace)
 =============================================================================
